@@ -29,7 +29,8 @@ FLOORS = {'npv_calls': 500, 'pmt_pv_calls': 1000, 'sln_calls': 100,
           'linearity_relations': 100, 'inversion_relations': 200,
           'formula_calls': 50, 'layout_calls': 50, 'xnpv_timed_dates': 30,
           'xnpv_zero_flows': 30, 'whole_number_finance_cases': 6,
-          'shifted_range_formulas': 100, 'argument_spelling_cases': 200}
+          'shifted_range_formulas': 100, 'argument_spelling_cases': 200,
+          'high_rate_npv_cases': 20, 'xnpv_orientation_cases': 20}
 ANCHOR_FUNCS = {'xlcalculator/xlfunctions/financial.py': [
     'NPV', 'PMT', 'PV', 'SLN', 'XNPV', 'IRR', 'XIRR', '_xnpv', '_xirr']}
 TIMEOUT = {'quick': 600, 'thorough': 3000}
@@ -477,6 +478,75 @@ def run(ctx):
             judge('NPV', f'NPV({r_}, {parts}) [library, mixed arguments]',
                   got_l, want, 1e-9 * max(abs(want), 1.0), 'npv_calls',
                   ('NPV', 'mixed-arguments-lib', len(parts)))
+
+    # ---- NPV at high rates with flows that grow as fast as they are discounted,
+    # or whose weight sits in one late payment: every flow counts -------------
+    if ctx.shard in (5, 6) or thorough:
+        for rate in (10.0, 4.0, 3.0, 2.5, 1.0):
+            for shape in ('growing', 'balloon', 'balloon-plus'):
+                n_ = 30
+                if shape == 'growing':
+                    flows_ = [float((1 + rate) ** (k + 1)) for k in range(n_)]
+                elif shape == 'balloon':
+                    flows_ = [0.0] * (n_ - 1) + [float((1 + rate) ** n_) * 7]
+                else:
+                    flows_ = [100.0] * (n_ - 1) + [float((1 + rate) ** n_)]
+                if max(abs(f_) for f_ in flows_) > 1e300:
+                    continue
+                terms = [mp.mpf(c) / mp.power(1 + mp.mpf(rate), k + 1)
+                         for k, c in enumerate(flows_)]
+                want = float(sum(terms))
+                got = monitors.call_outcome(F['NPV'], rate, *flows_)
+                ctx.event('high_rate_npv_cases')
+                judge('NPV', f'NPV({rate}, {shape} flows of {n_} periods)',
+                      got, want, 1e-9 * max(abs(want), 1.0), 'npv_calls',
+                      ('NPV', 'high-rate', rate, shape))
+                cells_ = {f'B{i + 1}': v for i, v in enumerate(flows_)}
+                cells_['A1'] = rate
+                got = subject.eval_one(f'=NPV(A1,B1:B{n_})', cells_)
+                judge('NPV', f'=NPV(A1,B1:B{n_}) at rate {rate}, {shape} '
+                      f'flows', got, want, 1e-9 * max(abs(want), 1.0),
+                      'formula_calls', ('NPV', 'high-rate-formula', rate,
+                                        shape))
+    # ---- XNPV: values in a row and dates in a column (and the other way round)
+    # are paired cell by cell in reading order, like two rows or two columns ----
+    if ctx.shard in (7, 8) or thorough:
+        for _ in range(12 if thorough else 3):
+            n_ = rng.randint(3, 6)
+            vals_ = [round(rng.uniform(-900, 900), 2) for _ in range(n_)]
+            d0_ = rng.randint(40000, 45000)
+            dts_ = [float(d0_ + 30 * k + rng.randint(0, 20))
+                    for k in range(n_)]
+            r_ = rng.choice([0.0, 0.05, 0.1, 0.3])
+            want = float(sum(mp.mpf(c) / mp.power(
+                1 + mp.mpf(r_), mp.mpf(d - dts_[0]) / 365)
+                for c, d in zip(vals_, dts_)))
+            cells_ = {'H1': r_}
+            for k in range(n_):
+                cells_[f'{ref.col_letters(2 + k)}1'] = vals_[k]   # row B1..
+                cells_[f'A{2 + k}'] = dts_[k]                     # column A2..
+                cells_[f'{ref.col_letters(2 + k)}10'] = dts_[k]   # row B10..
+                cells_[f'J{2 + k}'] = vals_[k]                    # column J2..
+            last = ref.col_letters(1 + n_)
+            layouts = {
+                'row x column': f'=XNPV(H1,B1:{last}1,A2:A{1 + n_})',
+                'column x row': f'=XNPV(H1,J2:J{1 + n_},B10:{last}10)',
+                'row x row': f'=XNPV(H1,B1:{last}1,B10:{last}10)',
+                'column x column': f'=XNPV(H1,J2:J{1 + n_},A2:A{1 + n_})',
+            }
+            for lname, text in layouts.items():
+                got = subject.eval_one(text, cells_)
+                ctx.event('xnpv_orientation_cases')
+                judge('XNPV', f'{text} [{lname}] over {vals_} / {dts_}', got,
+                      want, 1e-9 * max(abs(want), 1.0) + 1e-9, 'formula_calls',
+                      ('XNPV', 'orientation', lname))
+            # the same through the library
+            A_row = T.Array([vals_])
+            D_col = T.Array([[d] for d in dts_])
+            got = monitors.call_outcome(F['XNPV'], r_, A_row, D_col)
+            judge('XNPV', f'XNPV({r_}, [{vals_}], column of dates) [library]',
+                  got, want, 1e-9 * max(abs(want), 1.0) + 1e-9, 'xnpv_calls',
+                  ('XNPV', 'orientation-lib'))
 
     # ---- the range-taking spellings as formulas --------------------------------------
     for kind, r, data, want, tol in formulas:
